@@ -180,6 +180,10 @@ func ParBattery(p *parser.Parser, rot int) []Res {
 }
 
 func ptokProbes(p *parser.Parser, name string, pt, cut []token.Token, out []Res) []Res {
+	// a caller-built conversion result without a position table, on a list that
+	// fails: no position of an earlier call may show in the error
+	tree0, err0 := p.ParseWithPositions(&parser.ConversionResult{Tokens: cut})
+	out = append(out, Res{name + "/ParseWithPositions(cut,no-table)", "tree=" + canon.Of(tree0) + " err=" + canon.Err(err0)})
 	stmts, errs := p.ParseWithRecovery(cut)
 	out = append(out, Res{name + "/ParseWithRecovery(cut)", "stmts=" + canon.Of(stmts) + " errs=" + canon.Of(errs)})
 	tree, err := p.Parse(cut)
